@@ -21,14 +21,14 @@ func init() {
 		ID: "C11", Level: "exploration", Primary: "states", EvalCount: "stops",
 		Rule: "liveness restated as bounded progress: Stop must return within B=10s (an order of magnitude above what a correct implementation needs) WITHOUT any client action, and Run must then return nil. " +
 			"One evaluation = a fresh server brought into a connection state (none; 1/8/64 idle; half a frame sent; TLS listener with no / partial ClientHello; StartTLS-upgraded idle; StartTLS answered but handshake never started; busy pipelining; clients not reading " +
-			"large responses so that handlers block in Write (60KB frames that block in the write, 300-byte frames from two handlers that block in the flush, and a server configured with a 10-minute write timeout) - alone and combined ON THE SAME CONNECTION with an Unbind, a half-close, a pending StartTLS handshake or half a frame; all of them together) x optional concurrent second Stop, then Stop is called; plus Stop racing Run's start-up with no client at all (Run parked at its own log statements through the user-supplied logger, and random microsecond offsets), a connection with a history of 150 recovered handler panics, and idle connections left over by a PRNG-chosen history of 4..20 connections coming and going. If B expires the harness dumps goroutines and lets the clients go: a Stop parked in " +
+			"large responses so that handlers block in Write (60KB frames that block in the write, 300-byte frames from two handlers that block in the flush, and a server configured with a 10-minute write timeout) - alone and combined ON THE SAME CONNECTION with an Unbind, a half-close, a pending StartTLS handshake or half a frame; all of them together) x optional concurrent second Stop, then Stop is called; plus Stop racing Run's start-up with no client at all (Run parked at its own log statements through the user-supplied logger, and random microsecond offsets), a connection with a history of 150 recovered handler panics, idle connections left over by a PRNG-chosen history of 4..20 connections coming and going, 33/40/100 idle connections, and clients that keep connecting (and then sit idle) while Stop runs on a server with a 10-minute read timeout. If B expires the harness dumps goroutines and lets the clients go: a Stop parked in " +
 			"WaitGroup.Wait with a gldap connection goroutine parked in network I/O, released only when the clients close, is a violation, and so is a Stop that is parked while every handler still running sits inside gldap's own ResponseWriter.Write; anything else is inconclusive. " +
 			"distinct_nontrivial = distinct (state, #connections, second-Stop) triples with at least one connection open at Stop time",
 		Assume: []string{"handlers that block in application code (not in gldap's Write) are outside the statement: the workload's handlers only ever block inside ResponseWriter.Write"},
 		Phases: func(tier string, seed int64) []Phase {
 			return []Phase{{Name: "stop-states", Run: c11Run, Timeout: 40 * time.Minute}}
 		},
-		MinObserved: []string{"stops", "stops_with_open_connections", "stops_with_handlers_blocked_in_write", "stops_racing_run_startup", "stops_after_connection_churn"},
+		MinObserved: []string{"stops", "stops_with_open_connections", "stops_with_handlers_blocked_in_write", "stops_racing_run_startup", "stops_after_connection_churn", "stops_with_clients_connecting_meanwhile"},
 	})
 }
 
@@ -143,6 +143,18 @@ func c11Run(c *Ctx) {
 	for i := 0; i < c.N(15, 400); i++ {
 		c11One(c, pki, c11State{Name: "idle-after-churn", Conns: i, Second: i%3 == 0})
 	}
+	// more connections than any small internal queue holds
+	for _, n := range []int{33, 40, 100} {
+		c11One(c, pki, c11State{Name: "idle", Conns: n, Second: n == 40})
+		if c.Quick() {
+			break
+		}
+	}
+	c11One(c, pki, c11State{Name: "idle", Conns: 40})
+	// clients that keep connecting (and then sit idle) while Stop runs, on a server with a ten-minute read timeout
+	for i := 0; i < c.N(6, 100); i++ {
+		c11One(c, pki, c11State{Name: "connecting-while-stopping", Conns: 4 + i%8, Second: i%4 == 3})
+	}
 	for rep := 0; rep < reps; rep++ {
 		for _, st := range states {
 			for _, n := range counts {
@@ -165,12 +177,16 @@ func c11One(c *Ctx, pki *PKI, st c11State) {
 		stc = pki.ServerOnly
 	}
 	blob := strings.Repeat("y", 60000)
+	var rt time.Duration
+	if st.Name == "connecting-while-stopping" {
+		rt = 10 * time.Minute
+	}
 	var wt time.Duration
 	if st.Name == "not-reading+long-write-timeout" {
 		wt = 10 * time.Minute // a configured write timeout far beyond any bound Stop could have
 	}
 	small := strings.Repeat("s", 300)
-	srv, err := startSrv(SrvCfg{TLS: stc, WriteTimeout: wt}, func(m *gldap.Mux) {
+	srv, err := startSrv(SrvCfg{TLS: stc, WriteTimeout: wt, ReadTimeout: rt}, func(m *gldap.Mux) {
 		m.Search(func(w *gldap.ResponseWriter, r *gldap.Request) {
 			inHandlers.Add(1)
 			defer inHandlers.Add(-1)
@@ -315,6 +331,35 @@ func c11One(c *Ctx, pki *PKI, st c11State) {
 	if st.Name == "mixed" {
 		kinds = []string{"idle", "half-frame", "starttls-idle", "busy-pipelining", "not-reading", "starttls-pending", "not-reading+unbind", "not-reading+half-close", "not-reading+starttls-pending"}
 	}
+	var storm sync.WaitGroup
+	var stormMu sync.Mutex
+	stopStorm := make(chan struct{})
+	if st.Name == "connecting-while-stopping" {
+		// st.Conns goroutines dial in a loop; whatever connects stays connected and silent. The storm goes on for a
+		// moment after Stop has been called, so that accepts fall into every phase of Stop.
+		for g := 0; g < st.Conns; g++ {
+			storm.Add(1)
+			go func() {
+				defer storm.Done()
+				for {
+					select {
+					case <-stopStorm:
+						return
+					default:
+					}
+					cn, err := net.DialTimeout("tcp", srv.Addr, time.Second)
+					if err != nil {
+						return
+					}
+					stormMu.Lock()
+					conns = append(conns, cn)
+					stormMu.Unlock()
+				}
+			}()
+		}
+		time.Sleep(2 * time.Millisecond)
+		c.Count("stops_with_clients_connecting_meanwhile", 1)
+	}
 	if st.Name == "idle-after-churn" {
 		// a history of connections that come and go (each close is seen by the server before the next step), at the end
 		// of which some connections are simply idle: how the set of connections came about is none of Stop's business
@@ -362,6 +407,11 @@ func c11One(c *Ctx, pki *PKI, st c11State) {
 	go func() { stopRet <- srv.S.Stop() }()
 	if st.Second {
 		go func() { stopRet <- srv.S.Stop() }()
+	}
+	if st.Name == "connecting-while-stopping" {
+		time.Sleep(3 * time.Millisecond)
+		close(stopStorm)
+		storm.Wait()
 	}
 	nStops := 1
 	if st.Second {
